@@ -49,4 +49,14 @@ PROPS = {
                 "reference: F(x)=ceil(x*tsA/(tsV*frame))*frame in exact arithmetic, frame identity by payload hash against the VoD frames",
         "assumptions": ["reference video representation = first video representation in id order"],
     },
+    "C02": {
+        "parts": [{"pkg": "livesim", "test": "TestVerifC02", "gen": True}],
+        "clauses": ["C02.ast", "C02.a", "C02.b", "C02.c", "C02.e", "C02.f"],
+        "level": "model_checking",
+        "rule": "assets x MPDs x {Number, Timeline-Time, Timeline-Number} x {start_0,start_900,startrel_-20} x tsbd {0,1,5,10,60} x snr {unset,1,7} x ato {0,1/2 seg,seg+0.5,inf} "
+                "(quick: covering subset of the product) x every breakpoint instant +-1 ms over 2-3 loops after start and 1 loop far from the epoch plus one interior instant per piece; "
+                "every segment the MPD declares (explicitly or implicitly) is fetched at the same instant",
+        "assumptions": ["MPD read with an own encoding/xml reader, segments with an own box walker",
+                        "first-entry clause allows one segment of slack; $Number$ templates: exact for constant durations, within the loop's maximum deviation otherwise"],
+    },
 }
